@@ -203,7 +203,7 @@ def _completer(state, chart, processed):
     # We have a complete state. We must check if it helps to move another state forward.
     begin_idx = state.positions[0]
     head = state.production.head
-    for next_state in processed.generator(begin_idx):
+    for next_state in list(processed.generator(begin_idx)):
         # next_state[1][1] == begin_idx always true
         if next_state.is_incomplete() and next_state.production.body[next_state.positions[2]] == head:
             try:
